@@ -28,7 +28,7 @@ RULE = ("get_multiplier_sequence: every subset of {1..10} of size <=4 (quick) / 
 TRUSTED = ["h5py Group.copy makes a faithful copy of a base level (observed: bins incl. extra columns, pixels, indexes, attributes are compared with the source)",
            "coarsen_cooler = model of property C08 (same correspondence run style), multiprocess.Pool.map order preserving"]
 ASSUMPTIONS = ["resolutions and base bin sizes are positive integers", "all base coolers share one chromosome table"]
-RESIDUE = ["as C08: process scheduling / HDF5 lock not modelled", "the CLI tokenizer (strip/lower/split) is modelled by token classes; int() parsing by the harness",
+RESIDUE = ["as C08: process scheduling / HDF5 lock not modelled", "the Gallina model and the theorems are for the default aggregation (sum); requested aggregations max/min and extra value columns are checked by the oracle only (mean does not compose along a chain and is outside the claim)", "the CLI tokenizer (strip/lower/split) is modelled by token classes; int() parsing by the harness",
            "--balance and --legacy are outside the claim"]
 ALLOW_AXIOMS = ()
 
@@ -415,25 +415,42 @@ def part_zoom(ctx):
     return len(cases)
 
 
-# ------------------------------------- 3b. value columns travel through the levels (D20, fixed)
+# ------------------- 3b. value columns and requested aggregations travel through the levels (D20, fixed)
 def cols_run(tmpdir, tag, case):
+    """zoomify (API or CLI) with columns= / agg= ; returns per level the value columns present and the rows"""
     import cooler
     base = tmpdir / f"{tag}.cool"
     out = tmpdir / f"{tag}.mcool"
     blocks = fixed_blocks(case["sizes"], case["binsize"])
+    cols_req = list(case["columns"])
+    agg = dict(case["agg"])
+    has_w = case.get("extra") is not None
 
     def go():
-        G.make_cooler(base, blocks, case["pixels"], True, extra=case["extra"])
-        cooler.zoomify_cooler(str(base), str(out), list(case["resolutions"]), chunksize=case["chunksize"],
-                              columns=["count", "w"], agg={"w": case["agg"]})
+        G.make_cooler(base, blocks, case["pixels"], case.get("symmetric", True), extra=case.get("extra"))
+        if out.exists():
+            os.remove(out)
+        if case.get("via") == "cli":
+            from cooler.cli import cli
+            from click.testing import CliRunner
+            args = ["zoomify", "-o", str(out), "-c", str(case["chunksize"]), "-r", ",".join(str(r) for r in case["resolutions"])]
+            for c in cols_req:
+                args += ["--field", c + (":agg=" + agg[c] if c in agg else "")]
+            args.append(str(base))
+            r = CliRunner().invoke(cli, args)
+            if r.exit_code != 0:
+                raise RuntimeError(f"exit {r.exit_code}: {r.exception!r}")
+        else:
+            cooler.zoomify_cooler(str(base), str(out), list(case["resolutions"]), chunksize=case["chunksize"],
+                                  nproc=case.get("nproc", 1), columns=cols_req, agg=agg or None)
         levels = {}
         for r in sorted(set(case["resolutions"]) | {case["binsize"]}):
             p = cooler.Cooler(f"{out}::resolutions/{r}").pixels()[:]
             cols = [c for c in p.columns if c not in ("bin1_id", "bin2_id")]
-            levels[r] = (cols, [[int(a), int(b)] + [int(p[c].values[i]) for c in ("count", "w") if c in cols]
-                                for i, (a, b) in enumerate(zip(p["bin1_id"].values, p["bin2_id"].values))])
+            levels[r] = (cols, [[int(a), int(b)] for a, b in zip(p["bin1_id"].values, p["bin2_id"].values)],
+                         {c: [int(v) for v in p[c].values] for c in cols})
         return levels
-    st, res = G.guarded(go, 120)
+    st, res = G.guarded(go, 180)
     for p in (base, out):
         if p.exists():
             os.remove(p)
@@ -441,41 +458,79 @@ def cols_run(tmpdir, tag, case):
 
 
 def cols_oracle(case, st, res):
+    """every requested value column of every DERIVED level = the requested aggregate (sum unless said
+    otherwise) of the BASE pixels of the block, computed here from the input; only aggregations that
+    compose along a chain are used (sum, max, min), so the chain of predecessors cannot matter"""
     if st != "ok":
-        return {"what": "zoomify_cooler(columns=[count,w]) failed", "status": st, "type": res}
+        return {"what": "zoomify with columns=/agg= failed", "status": st, "type": res}
     blocks = fixed_blocks(case["sizes"], case["binsize"])
-    px4 = [[p[0], p[1], p[2], w] for p, w in zip(case["pixels"], case["extra"])]
-    for r, (cols, rows) in sorted(res.items()):
-        if cols != ["count", "w"]:
-            return {"what": f"level {r}: value columns", "got": cols}
+    extra = case.get("extra")
+    px4 = [[p[0], p[1], p[2], (extra[i] if extra is not None else 0)] for i, p in enumerate(case["pixels"])]
+    colidx = {"count": 2, "w": 3}
+    for r, (cols, keys, vals) in sorted(res.items()):
         k = r // case["binsize"]
-        if k == 1:
-            exp = px4
-        else:
-            e1 = G.oracle_pixels(blocks, px4, k, "sum", 2)
-            e2 = G.oracle_pixels(blocks, px4, k, case["agg"], 3)
-            exp = [[a[0], a[1], a[2], b[2]] for a, b in zip(e1, e2)]
-        if rows != exp:
-            return {"what": f"level {r}: values", "got": rows[:20], "expected": exp[:20]}
+        for c in case["columns"]:
+            if c not in cols:
+                return {"what": f"level {r}: requested value column '{c}' missing", "got": cols}
+            f = "sum" if k == 1 else case["agg"].get(c, "sum")
+            exp = [[p[0], p[1], p[colidx[c]]] for p in px4] if k == 1 else G.oracle_pixels(blocks, px4, k, f, colidx[c])
+            got = [k_ + [v] for k_, v in zip(keys, vals[c])]
+            if got != exp:
+                return {"what": f"level {r}: column {c} is not the {f} over the base block", "got": got[:20], "expected": exp[:20]}
     return None
+
+
+COLS_CORPUS = [
+    # D20: extra column kept on derived levels
+    {"sizes": [40], "binsize": 10, "pixels": [[0, 0, 1], [0, 1, 2], [2, 3, 4]], "extra": [5, 7, 9], "columns": ["count", "w"],
+     "agg": {}, "resolutions": [10, 20], "chunksize": 10},
+    # requested aggregation on count, chain 10 -> 20 -> 40 -> 80: max of max = max over the base block
+    {"sizes": [130, 47], "binsize": 10, "pixels": "dense", "extra": None, "columns": ["count"],
+     "agg": {"count": "max"}, "resolutions": [20, 40, 80], "chunksize": 7},
+    {"sizes": [130, 47], "binsize": 10, "pixels": "sparse", "extra": None, "columns": ["count"],
+     "agg": {"count": "min"}, "resolutions": [40, 20], "chunksize": 1},
+    # aggregation on the extra int column only, count stays a sum; mixed predecessors 20,30 -> 60
+    {"sizes": [90, 25], "binsize": 10, "pixels": "dense", "extra": "rand", "columns": ["count", "w"],
+     "agg": {"w": "min"}, "resolutions": [20, 30, 60], "chunksize": 1000},
+    {"sizes": [90, 25], "binsize": 10, "pixels": "band", "extra": "rand", "columns": ["count", "w"],
+     "agg": {"w": "max", "count": "max"}, "resolutions": [20, 40], "chunksize": 2, "symmetric": False},
+    {"sizes": [64], "binsize": 8, "pixels": "dense", "extra": "rand", "columns": ["w"],
+     "agg": {"w": "max"}, "resolutions": [16, 32], "chunksize": 5},
+    # CLI:  --field count:agg=max   and   --field count --field w:agg=min
+    {"sizes": [130, 47], "binsize": 10, "pixels": "dense", "extra": None, "columns": ["count"],
+     "agg": {"count": "max"}, "resolutions": [20, 40], "chunksize": 7, "via": "cli"},
+    {"sizes": [90, 25], "binsize": 10, "pixels": "sparse", "extra": "rand", "columns": ["count", "w"],
+     "agg": {"w": "min"}, "resolutions": [20, 40], "chunksize": 1000, "via": "cli"},
+]
 
 
 def part_cols(ctx):
     rng = ctx.rng
     tmpdir = ctx.tmp / "cols"
     tmpdir.mkdir(exist_ok=True)
-    cases = [{"fn": "zoomify_cooler(columns=[count,w])", "sizes": [40], "binsize": 10, "pixels": [[0, 0, 1], [0, 1, 2], [2, 3, 4]],
-              "extra": [5, 7, 9], "resolutions": [10, 20], "chunksize": 10, "agg": "sum"}]
-    for _ in range(6 if ctx.tier == "thorough" else 2):
-        sizes = [rng.randint(20, 90) for _ in range(rng.randint(1, 2))]
-        blocks = fixed_blocks(sizes, 10)
-        n = sum(len(b) for b in blocks)
-        px = [list(p) for p in G.random_pixels(rng, n, True, rng.choice(["dense", "sparse"]))]
-        cases.append({"fn": "zoomify_cooler(columns=[count,w])", "sizes": sizes, "binsize": 10, "pixels": px,
-                      "extra": [rng.randint(-5, 20) for _ in px], "resolutions": rng.choice([[20, 40], [30, 20, 60], [40]]),
-                      "chunksize": rng.choice([1, 7, 1000]), "agg": rng.choice(["sum", "max", "min"])})
+    specs = [dict(c) for c in COLS_CORPUS]
+    for _ in range(10 if ctx.tier == "thorough" else 2):
+        has_w = rng.random() < 0.6
+        cols = ["count", "w"] if has_w else ["count"]
+        agg = {c: rng.choice(["max", "min", "sum"]) for c in cols if rng.random() < 0.8}
+        specs.append({"sizes": [rng.randint(20, 90) for _ in range(rng.randint(1, 2))], "binsize": 10,
+                      "pixels": rng.choice(["dense", "sparse", "band"]), "extra": "rand" if has_w else None, "columns": cols, "agg": agg,
+                      "resolutions": rng.choice([[20, 40], [30, 20, 60], [40, 80], [20, 40, 80]]), "chunksize": rng.choice([1, 7, 1000]),
+                      "symmetric": rng.random() < 0.7, "via": rng.choice(["api", "api", "cli"])})
+    cases = []
+    for sp in specs:
+        case = dict(sp)
+        case["fn"] = "zoomify(columns=,agg=)"
+        symm = case.get("symmetric", True)
+        if isinstance(case["pixels"], str):
+            n = sum(len(b) for b in fixed_blocks(case["sizes"], case["binsize"]))
+            case["pixels"] = [list(p) for p in G.random_pixels(rng, n, symm, case["pixels"], maxcount=30)]
+        if case["extra"] == "rand":
+            case["extra"] = [rng.randint(-9, 40) for _ in case["pixels"]]
+        cases.append(case)
     for i, case in enumerate(cases):
-        ctx.case(case, nontrivial=True, kind="zoomify:columns")
+        nontriv = any(v != "sum" for v in case["agg"].values()) or case["extra"] is not None
+        ctx.case(case, nontrivial=nontriv, kind="zoomify:agg:" + (case.get("via") or "api") + ":" + "+".join(f"{c}={case['agg'].get(c, 'sum')}" for c in case["columns"]))
         st, res = cols_run(tmpdir, f"w{i}", case)
         bad = cols_oracle(case, st, res)
         if bad:
@@ -640,7 +695,7 @@ def replay(ctx, case):
         from cooler._reduce import preferred_sequence
         got = [int(x) for x in preferred_sequence(case["start"], case["stop"], case["style"])]
         return got == ref_pref(case["start"], case["stop"], case["style"] == "binary")
-    if fn.startswith("zoomify_cooler(columns"):
+    if fn.startswith("zoomify(columns"):
         st, res = cols_run(ctx.tmp, "replay", case)
         return cols_oracle(case, st, res) is None
     if fn == "zoomify_cooler":
